@@ -55,6 +55,12 @@ func (cx *Ctx) InstallResolvers() {
 	if cx.E == nil {
 		return
 	}
+	rules.ResolveCallSite = func(site ssa.CallInstruction) ([]*ssa.Function, bool) {
+		// every summary first: the log is complete only then
+		cx.Arms()
+		cx.stepAnalysis()
+		return absint.DynTargets(site)
+	}
 	rules.ResolveFuncValue = func(v ssa.Value) ([]*ssa.Function, bool) {
 		u, ok := v.(*ssa.UnOp)
 		if !ok {
